@@ -180,7 +180,10 @@ CHECKS = {
     text=("UncompressedFileSeq.tla (one operator per method of UncompressedFile, UFOps) explored exhaustively by TLC "
           "for two alphabets (geometry: chunked writes, whole containers, nextLogContainer, drop, container size "
           "changes; flags: declared end, abort, buffer size) with geometry invariants and read/flag action properties; "
-          "every edge executed on the real object comparing all members, observers and the bytes returned."),
+          "every edge executed on the real object comparing all members, observers and the bytes returned. "
+          "StreamConc.tla adds the concurrent view (writer, reader, controller; every order relation of read size, "
+          "chunk, container and buffer; published demand): DeadlockFree, Termination, BytesExact, PendingBounded by "
+          "TLC and edge replay under the controlled scheduler."),
     design_ref="DESIGN.md §6 C15",
     note=("Bounded: positions <= 4..6, container sizes 1..3. write(container) only while no container is open at the "
           "put position (Protocol)."),
